@@ -94,6 +94,15 @@ def molOp (n : Nat) (const : Rat) (h : List (List Rat)) (g : List (List (List (L
         (List.range n).flatMap fun s => (List.range 2).flatMap fun σ => (List.range 2).map fun τ =>
           ([(2 * p + σ, 1), (2 * q + τ, 1), (2 * r + τ, 0), (2 * s + σ, 0)], (⟨m4 g p q r s / 2, 0⟩ : GQ)))
 
+/-- the one-body matrix of the spin-orbital Hamiltonian: `T[2p+σ, 2q+τ] = δ_στ h_pq` -/
+def spinOne (n : Nat) (h : List (List Rat)) : List (List Rat) :=
+  (List.range (2 * n)).map fun i => (List.range (2 * n)).map fun j => if i % 2 = j % 2 then m2 h (i / 2) (j / 2) else 0
+
+/-- the density-density matrix of Coulomb-type integrals: `V[(pσ), (qτ)] = ½ g_pqqp` off the diagonal -/
+def spinCoulomb (n : Nat) (g : List (List (List (List Rat)))) : List (List Rat) :=
+  (List.range (2 * n)).map fun i => (List.range (2 * n)).map fun j =>
+    if i = j then 0 else m4 g (i / 2) (j / 2) (j / 2) (i / 2) / 2
+
 /-! ### operators in Pauli form -/
 
 /-- sum of `|c|` over the strings of a qubit operator stored as (Pauli string, real coefficient) pairs; the identity
